@@ -40,11 +40,14 @@ for sid in ids:
         r['demo_clean'] = 'PASS' if rc1 == 0 else 'rc%d %s' % (rc1, o1[-200:])
         r['demo_mutant'] = 'FAIL' if rc2 != 0 else 'PASS(!)'
         r['demo_mutant_msg'] = ([l for l in o2.splitlines() if l.startswith('FAIL')] or [''])[0][:300]
-        for mode, flag in (('full', ''), ('proof_only', '--no-bounded'), ('bounded_only', '--no-proof')):
+        for mode, flag in (('proof_only', '--no-bounded'), ('bounded_only', '--no-proof')):
             rc3, o3 = run('./check %s %s' % (pid, flag), {'VERIF_REPO': mut}, 1500, cwd=HERE)
             viol = [l for l in o3.splitlines() if l.startswith('VIOLATION')]
             r[mode] = {'exit': rc3, 'violations': [re.sub(r'.*replay=\S*/', '', v) for v in viol][:6],
                        'notes': [l[:160] for l in o3.splitlines() if l.startswith(('NOTE', 'UNDECIDED', 'MACHINERY'))][:4]}
+        # the full check is the two layers together: it exits 1 when either does
+        exits = [r['proof_only']['exit'], r['bounded_only']['exit']]
+        r['full'] = {'exit': 1 if 1 in exits else max(e for e in exits if e != 3) if any(e != 3 for e in exits) else 3, 'violations': r['proof_only']['violations'] + r['bounded_only']['violations'], 'notes': []}
         r['detected'] = r['full']['exit'] == 1
         res[sid] = r
         print(sid, 'demo', r['demo_clean'], r['demo_mutant'], '| check exit', r['full']['exit'], 'proof', r['proof_only']['exit'], 'bounded', r['bounded_only']['exit'],
